@@ -164,6 +164,43 @@ Proof.
 Qed.
 Print Assumptions C15_Qc_ordered_field.
 
+(* 8. The median used by detrend is well defined: in a window of 2h+1 entries any two entries with at
+   most h entries strictly below and at most h strictly above are equal (so the model's `median`, the
+   first such entry, is the middle order statistic). *)
+Theorem C15_median_unique :
+  forall (F : Type) (O : ops F), ordered_field O ->
+  forall (h : nat) (l : list F) (m1 m2 : F), length l = (2 * h + 1)%nat ->
+  is_median O h m1 l = true -> is_median O h m2 l = true -> m1 = m2.
+Proof.
+  intros F O [H1 [H2 [H3 [H4 _]]]] h l m1 m2. exact (is_median_unique F O H1 H2 H3 H4 h l m1 m2).
+Qed.
+Print Assumptions C15_median_unique.
+
+(* 9. (records finding F-C15-b) Whatever the recording: the detrended coherence of the FIRST and of the
+   LAST channel is exactly 0 (6 of the 11 window entries are the channel's own value), so with a
+   non-positive dead threshold (default -0.5) neither end of the probe is ever labelled dead (1) - a
+   silent channel there is missed.  The property's clause "a silent channel is labelled dead wherever it
+   is placed" therefore fails at the two probe ends for every input. *)
+Theorem C15_dead_never_at_probe_ends :
+  forall (F : Type) (O : ops F), ordered_field O ->
+  forall (xcor : list F) (sim_lo sim_hi psd_thr out_thr : F) (lf psd : list (option F)),
+  xcor <> [] -> fltb O (f0 O) sim_lo = false ->
+  let hf := map Some (detrend11 O xcor) in
+  length psd = length hf ->
+  nth 0 (detrend11 O xcor) (f0 O) = f0 O /\
+  nth (length xcor - 1) (detrend11 O xcor) (f0 O) = f0 O /\
+  nth 0 (label_rule O sim_lo sim_hi psd_thr out_thr hf lf psd) 0 <> 1 /\
+  nth (length xcor - 1) (label_rule O sim_lo sim_hi psd_thr out_thr hf lf psd) 0 <> 1.
+Proof.
+  intros F O [H1 [H2 [H3 [H4 _]]]] xcor sim_lo sim_hi psd_thr out_thr lf psd Hne Hlo hf Hp.
+  destruct (dead_never_at_ends F O H1 H2 H3 H4 xcor sim_lo sim_hi psd_thr out_thr lf psd Hne Hlo Hp) as [A B].
+  split; [|split; [|split; [exact A | exact B]]].
+  - destruct xcor as [|x0 r]; [congruence|]. exact (detrend11_first F O H1 H2 H3 H4 x0 r).
+  - destruct (exists_last Hne) as [pre [xl E]]. subst xcor. rewrite app_length. cbn [length].
+    replace (length pre + 1 - 1)%nat with (length pre) by lia. exact (detrend11_last F O H1 H2 H3 H4 pre xl).
+Qed.
+Print Assumptions C15_dead_never_at_probe_ends.
+
 (* ---------------------------------------------------------------------- *)
 (* The hypotheses are satisfiable on concrete, non-trivial inputs.           *)
 Local Definition h : Qc := dyadic 1 1.     (* 1/2 *)
@@ -211,4 +248,11 @@ Proof. vm_compute. reflexivity. Qed.
 (* mode: ties go to the smallest label *)
 Example C15_ex_mode :
   cbin_labels 3 [[0; 3; 2]; [1; 3; 1]; [1; 0; 2]; [0; 0; 1]] = [0; 0; 1].
+Proof. vm_compute. reflexivity. Qed.
+
+(* detrend: a silent first channel (coherence 0 among coherent neighbours) gets 0, while the same
+   channel at position 3 gets -1 (and would be labelled dead) *)
+Example C15_ex_detrend :
+  map enc_val (detrend11 QcOps (map (fun z => dyadic z 0) [0; 1; 1; 0; 1; 1; 1; 1; 1; 1; 1; 1; 0])) =
+  map (fun z => z * 2 ^ 32) [0; 1; 0; -1; 0; 0; 0; 0; 0; 0; 0; 0; 0].
 Proof. vm_compute. reflexivity. Qed.
